@@ -54,14 +54,19 @@ Proof.
   rewrite (sum_over_outputs g cs _ want_ctr_mem)
     by (intros c Hc; rewrite (container_out_listed g c Hbe (HL c Hc)); reflexivity).
   split; [|split].
-  - intro Hmax. unfold want_pod_shares, want_ctr_shares in *.
+  - assert (E : sumZ (map want_ctr_shares cs)
+                = sumZ (map (fun c => MilliCPUToShares (declared (reqC c))) cs)).
+    { apply sumZ_map_ext. intros c _. unfold want_ctr_shares. now rewrite shares_std. }
+    rewrite E. unfold want_pod_shares. rewrite <- shares_std.
+    change std_shares_max with CPUSharesMaxValue. change std_shares_min with CPUSharesMinValue.
+    intro Hmax.
     apply (shares_sum_bounds (fun c => declared (reqC c)) cs); [intros; apply declared_nonneg|exact Hne|exact Hmax].
   - intros Hcfs Hlim. unfold want_pod_quota. rewrite Hcfs, Hlim. cbn [andb].
     unfold all_cpu_limited in Hlim. rewrite forallb_forall in Hlim.
     assert (E : sumZ (map (want_ctr_quota g) cs)
                 = sumZ (map (fun c => normalized (ratio g) (MilliCPUToQuota (amount (limC c)))) cs)).
-    { apply sumZ_map_ext. intros c Hc. unfold want_ctr_quota. now rewrite Hcfs, (Hlim c Hc). }
-    rewrite E.
+    { apply sumZ_map_ext. intros c Hc. unfold want_ctr_quota. now rewrite Hcfs, (Hlim c Hc), quota_std. }
+    rewrite E. rewrite <- quota_std. change std_quota_min with CFSQuotaMinValue.
     apply (quota_near_sum (fun c => amount (limC c)) cs (ratio g)); [|exact Hne].
     intros c Hc. now destruct (declared_limited _ (Hlim c Hc)).
   - intro Hlim. unfold want_pod_mem. rewrite Hlim.
